@@ -50,7 +50,7 @@ func (w *Worker) modExp(g, x, m BigVal) BigVal {
 		if !w.isModexpResult(r) {
 			w.modexps = append(w.modexps, r)
 			w.assertSilently(tc.Cmp(OpUlt, r, tc.ConstBig(mw, m.C)))
-			if mw >= 256 {
+			if mw >= 56 {
 				// generic-group assumption for DH-sized moduli: distinct
 				// (base, exponent) pairs give values that differ in the first 8 bytes
 				w.ufInjective(name, r)
@@ -182,7 +182,15 @@ func (w *Worker) bigBytesSym(b BigVal) Value {
 	for k < len(bs) {
 		if w.bigStripMax >= 0 && k >= w.bigStripMax {
 			// harness-stated bound on stripped leading zero bytes
-			w.assume(tc.Not(tc.Eq(bs[k], tc.Const(8, 0))))
+			c := tc.Not(tc.Eq(bs[k], tc.Const(8, 0)))
+			if b.T.Op == OpConcat && len(b.T.A) == 2 && w.isModexpResult(b.T.A[1]) {
+				// an otherwise unconstrained DH value: always consistent, no query needed
+				if sc := w.simp(c); !sc.IsTrue() {
+					w.assertSilently(c)
+				}
+			} else {
+				w.assume(c)
+			}
 			break
 		}
 		if !w.decideBool(tc.Eq(bs[k], tc.Const(8, 0))) {
